@@ -14,6 +14,16 @@ from ..lib.impl import Raised, call
 from ..lib.leangen import lbool, lexcept, llist
 
 LEVEL = "proof"
+CLAIM = dict(
+    category="proof",
+    text="Theorems in DarsiaProps.C20 over tables re-tabulated from the running helpers on every run (G1): agreement of "
+    "to_matrix/to_cartesian with interpret_indexing, there-and-back, integer = named axis, coherence and bijectivity of "
+    "interpret_indexing, layout helper = coordinate-system placement (all shapes), layout helpers mutually inverse (all shapes, "
+    "all indices), slice/reduce by name = by index. Exhaustive over the finite vocabulary; random arrays tie the layout index "
+    "maps and slicing/reduction to the model.",
+    note="numpy swapaxes/flip semantics (tied by the layout correspondence); tabulation is exhaustive over dims 1-3 x axes x indexings.",
+    technique="Lean 4 proof (decide over tables regenerated from the code + general index-map lemmas) + differential correspondence",
+)
 AXES = ["x", "y", "z", "i", "j", "k"]
 INDS = ["x", "xy", "xyz", "i", "ij", "ijk"]
 BASE_SHAPE = (2, 3, 5)
@@ -82,9 +92,7 @@ def slice_axis(d, axarg, dim):
         if c >= dim:
             r = call(img.slice, 0.0, axarg)
             return r if isinstance(r, Raised) else Raised(ValueError("accepted foreign axis"))
-        cut = float(img.origin[c]) + 0.0  # refined by the oracle; here only the axis matters
-        cut = 0.25 if True else cut
-        # choose a coordinate surely inside the image along axis c
+        # a coordinate surely inside the image along axis c (only the removed axis matters here)
         lo = min(img.origin[c], img.opposite_corner[c])
         cut = float(lo) + 0.25
         r = call(img.slice, cut, axarg)
